@@ -84,6 +84,52 @@ def _split(f):
     return f.node.body[:idx[0] + 1], f.node.body[idx[0] + 1:]
 
 
+def _tidy_records(v):
+    """Elements and leading slices of tuple displays, by value."""
+    fnm = lambda x: getattr(getattr(x, "func", None), "__name__", "")      # noqa: E731
+    NONE = sp.Symbol("None")
+    if not hasattr(v, "replace"):
+        return v
+    for _ in range(4):
+        v2 = v.replace(lambda x: fnm(x) == "getitem" and isinstance(x.args[0], sp.Tuple) and getattr(x.args[1], "is_Integer", False)
+                       and 0 <= int(x.args[1]) < len(x.args[0]), lambda x: x.args[0][int(x.args[1])])
+        v2 = v2.replace(lambda x: fnm(x) == "getitem" and isinstance(x.args[0], sp.Tuple) and fnm(x.args[1]) == "slice" and len(x.args[1].args) == 3
+                        and all(a == NONE or getattr(a, "is_Integer", False) for a in x.args[1].args),
+                        lambda x: sp.Tuple(*list(x.args[0])[slice(*[None if a == NONE else int(a) for a in x.args[1].args])]))
+        if v2 == v:
+            break
+        v = v2
+    return v
+
+
+def _sections(prog: Program, f):
+    """(preamble incl. the plain assignments that follow the trimming statement, the verdict section, bindings in force at the
+    start of the verdict section written over the abstract trimmed curves frequency / mean_curve / std_curve)."""
+    from ..pathtable import PathTable
+    pre, post = _split(f)
+    ext = []
+    for st in post:
+        if not isinstance(st, ast.Assign):
+            break
+        ext.append(st)
+    rest = post[len(ext):]
+    trims = [st for st in ast.walk(pre[-1]) if isinstance(st, ast.Assign) and calls_in(st.value, "trim_curve")]
+    env: Dict[str, sp.Expr] = {}
+    if len(trims) == 1 and isinstance(trims[0].targets[0], ast.Tuple) and len(trims[0].targets[0].elts) == 3 \
+            and all(isinstance(e, ast.Name) for e in trims[0].targets[0].elts):
+        for e, nm in zip(trims[0].targets[0].elts, ("frequency", "mean_curve", "std_curve")):
+            env[e.id] = sp.Symbol(nm, real=True)
+    else:
+        raise AnalysisError(f"{f.qualname}: the statement that stores the trimmed curves is not recognised")
+    if ext:
+        pt = PathTable(prog, f.module, unroll=True, opaque=OPAQUE, env=env)
+        ls = pt.leaves(ext)
+        if len(ls) != 1:
+            raise AnalysisError(f"{f.qualname}: the assignments after the trimming statement branch")
+        env = {k: _tidy_records(sp.sympify(v)) if not isinstance(v, str) else v for k, v in ls[0].env.items()}
+    return pre + ext, rest, env
+
+
 def _verdict_stores(f) -> Dict[int, List[ast.Assign]]:
     out: Dict[int, List[ast.Assign]] = {}
     rets = [r for r in own_nodes(f.node) if isinstance(r, ast.Return) and isinstance(r.value, ast.Name)]
@@ -129,7 +175,7 @@ def _verdicts(ck: Checker, prog: Program, f):
     from ..pathtable import PathTable, literals_of, expand_piecewise, same_literal_set, literals
     q = f.qualname
     is_rel = f.name == "reliability"
-    pre, post = _split(f)
+    _pre, post, env0 = _sections(prog, f)
     stores = _verdict_stores(f)
     ck.floor("C16.R2", len(stores), 3 if is_rel else 6, f"{f.name} verdicts")
     R = lambda n: sp.Symbol(n, real=True)   # noqa: E731
@@ -138,7 +184,7 @@ def _verdicts(ck: Checker, prog: Program, f):
     PI = sp.Function("peak_index")
     pidx = PI(MEAN)
     f0, a0 = gi(FRQ, pidx), gi(MEAN, pidx)
-    pt = PathTable(prog, f.module, skip_if=lambda st: _only_verbose(st.test), unroll=True, opaque=OPAQUE)
+    pt = PathTable(prog, f.module, skip_if=lambda st: _only_verbose(st.test), unroll=True, opaque=OPAQUE, env=env0)
     leaves = pt.leaves(post)
     if not leaves:
         raise AnalysisError(f"{q}: no path through the verdict section")
@@ -301,7 +347,14 @@ def _preamble(ck: Checker, prog: Program, f):
     S = [sp.Symbol("<low>", real=True), sp.Symbol("<upp>", real=True)]
     GIVEN = [sp.Function("given")(sp.Integer(0)), sp.Function("given")(sp.Integer(1))]
     pt = PathTable(prog, f.module, skip_if=lambda st: _only_verbose(st.test), unroll=True, opaque=OPAQUE, env={"search_range_in_hz": sp.Tuple(*S)})
-    leaves = pt.leaves(pre)
+    # plain assignments right after the trimming statement (peak search, unpacking of a record) belong to the preamble
+    pre_ext = list(pre)
+    for st in post:
+        if not isinstance(st, ast.Assign):
+            break
+        pre_ext.append(st)
+    leaves = pt.leaves(pre_ext)
+    range_read_later = any(isinstance(x, ast.Name) and x.id == "search_range_in_hz" and isinstance(x.ctx, ast.Load) for st in post for x in ast.walk(st))
     dflt = [sp.Function("min")(FRQ), sp.Function("max")(FRQ)]
     seen = set()
     problems = []
@@ -312,6 +365,9 @@ def _preamble(ck: Checker, prog: Program, f):
         for _ in range(4):
             v2 = v.replace(lambda x: fnm(x) == "getitem" and isinstance(x.args[0], sp.Tuple) and getattr(x.args[1], "is_Integer", False)
                            and 0 <= int(x.args[1]) < len(x.args[0]), lambda x: x.args[0][int(x.args[1])])
+            v2 = v2.replace(lambda x: fnm(x) == "getitem" and isinstance(x.args[0], sp.Tuple) and fnm(x.args[1]) == "slice" and len(x.args[1].args) == 3
+                            and all(a == NONE or getattr(a, "is_Integer", False) for a in x.args[1].args),
+                            lambda x: sp.Tuple(*list(x.args[0])[slice(*[None if a == NONE else int(a) for a in x.args[1].args])]))
             v2 = v2.replace(lambda x: fnm(x) in ("tuple", "list", "float") and len(x.args) == 1 and (isinstance(x.args[0], sp.Tuple) or fnm(x) == "float"), lambda x: x.args[0])
             if v2 == v:
                 break
@@ -344,7 +400,7 @@ def _preamble(ck: Checker, prog: Program, f):
         if cur != want:
             problems.append(f"{label}: curves are {cur}")
         srv = tidy(sp.sympify(l.env.get("search_range_in_hz", sp.Tuple(*S))), world)
-        if srv != L:
+        if srv != L and range_read_later:
             problems.append(f"{label}: the search range in force becomes {srv}; expected {L}")
     if not problems and len(seen) == 4:
         ck.ok("C16.R4", q, "trimmed whenever at least one limit is given; missing limit = curve end", detail="4 cases of (lower, upper) limit given / None")
@@ -469,6 +525,14 @@ def _peak_index(ck: Checker, prog: Program):
             for kw in (F("default")(sp.Symbol("None")), sp.Symbol("None")):
                 if v == F("getitem")(F("_find_peak_unbounded")(ax, C, kw), sp.Integer(0)):
                     good = True
+    if not good:
+        # a value computed by a helper that is not part of the pinned vocabulary (and could not be analysed in place) is not judged
+        from ..normalize import load_baseline
+        base = load_baseline()
+        new_calls = sorted({c.func.id for c in calls_in(f.node) if isinstance(c.func, ast.Name)
+                            and (r := prog.resolve_name(f.module, c.func.id)) and r[0] == "func" and r[1].qualname not in base})
+        if new_calls:
+            raise AnalysisError(f"{f.qualname}: the index is computed by {new_calls}, helpers outside the pinned vocabulary that could not be analysed in place")
     if good:
         ck.ok("C16.R2", f.qualname, "peak index = highest local maximum of the curve (index axis)")
     else:
